@@ -3,6 +3,7 @@ package main
 import (
 	"fmt"
 	"go/constant"
+	"strings"
 	"go/token"
 	"go/types"
 	"sort"
@@ -126,16 +127,62 @@ func posOf(ins ssa.Instruction) ipos {
 	return ipos{b, -1}
 }
 
-// instrDominates: a executes before b on every path to b (same function).
-func instrDominates(a, b ssa.Instruction) bool {
-	if a.Parent() != b.Parent() {
+// instrDominates: a executes before b on every path to b. Within one function this is block dominance; across
+// functions b is lifted to the call sites of its function (all of them must be dominated), and a is lifted to the
+// call sites of its own function when a executes on every path through that function.
+func instrDominates(a, b ssa.Instruction) bool { return instrDominatesD(a, b, 0) }
+
+func instrDominatesD(a, b ssa.Instruction, depth int) bool {
+	if a.Parent() == b.Parent() {
+		pa, pb := posOf(a), posOf(b)
+		if pa.b == pb.b {
+			return pa.i < pb.i
+		}
+		return pa.b.Dominates(pb.b)
+	}
+	if depth > 3 || gp == nil {
 		return false
 	}
-	pa, pb := posOf(a), posOf(b)
-	if pa.b == pb.b {
-		return pa.i < pb.i
+	// lift b to its callers
+	if sites, ok := gp.liftSites(b.Parent()); ok {
+		all := true
+		for _, cs := range sites {
+			if !instrDominatesD(a, cs, depth+1) {
+				all = false
+				break
+			}
+		}
+		if all {
+			return true
+		}
 	}
-	return pa.b.Dominates(pb.b)
+	// lift a: a runs on every path through its function g, and some call of g dominates b
+	g := a.Parent()
+	if g != nil && alwaysExecutes(a) {
+		if sites, ok := gp.liftSites(g); ok {
+			for _, cs := range sites {
+				if instrDominatesD(cs, b, depth+1) {
+					return true
+				}
+			}
+		}
+	}
+	return false
+}
+
+// alwaysExecutes: the instruction's block dominates every return of its function.
+func alwaysExecutes(a ssa.Instruction) bool {
+	f := a.Parent()
+	n := 0
+	for _, b := range f.Blocks {
+		if _, ok := b.Instrs[len(b.Instrs)-1].(*ssa.Return); ok {
+			n++
+			if !a.Block().Dominates(b) {
+				return false
+			}
+		}
+	}
+	return n > 0
 }
 
 // valueInstr returns v as an instruction, if it is one.
@@ -216,8 +263,12 @@ func edgeFact(e edge) condFact {
 	return cf
 }
 
-// dominatingFacts lists the branch facts that hold whenever block x executes (edges dominating x).
-func dominatingFacts(x *ssa.BasicBlock) []condFact {
+// dominatingFacts lists the branch facts that hold whenever block x executes: the edges dominating x in its own
+// function, plus (interprocedurally) the facts that hold at every call site of that function — helper extraction
+// must not hide a guard that the caller established.
+func dominatingFacts(x *ssa.BasicBlock) []condFact { return dominatingFactsD(x, 0) }
+
+func localFacts(x *ssa.BasicBlock) []condFact {
 	var out []condFact
 	fn := x.Parent()
 	for _, b := range fn.Blocks {
@@ -231,6 +282,39 @@ func dominatingFacts(x *ssa.BasicBlock) []condFact {
 		}
 	}
 	return out
+}
+
+func factKey(cf condFact) string { return fmt.Sprintf("%s|%v", pureKey(cf.Raw), cf.Want) }
+
+func dominatingFactsD(x *ssa.BasicBlock, depth int) []condFact {
+	out := localFacts(x)
+	if gp == nil || depth > 3 {
+		return out
+	}
+	sites, ok := gp.liftSites(x.Parent())
+	if !ok || len(sites) == 0 {
+		return out
+	}
+	var inherited []condFact
+	for i, cs := range sites {
+		fs := dominatingFactsD(cs.Block(), depth+1)
+		if i == 0 {
+			inherited = fs
+			continue
+		}
+		keep := map[string]bool{}
+		for _, f := range fs {
+			keep[factKey(f)] = true
+		}
+		var nf []condFact
+		for _, f := range inherited {
+			if keep[factKey(f)] {
+				nf = append(nf, f)
+			}
+		}
+		inherited = nf
+	}
+	return append(out, inherited...)
 }
 
 func isNilConst(v ssa.Value) bool {
@@ -725,4 +809,244 @@ func allPathsPass(x *ssa.BasicBlock, good func(e edge) bool) (bool, []*ssa.Basic
 		found, witness = true, path
 	}
 	return !found, witness
+}
+
+// ---------- interprocedural lifting ----------
+
+// gp is the program under analysis (one per process; scratch copies are analysed by child processes).
+var gp *Prog
+
+// syncHigherOrder: external functions that call their function argument synchronously before returning.
+var syncHigherOrder = map[string]bool{
+	"sort.Search": true, "sort.Slice": true, "sort.SliceStable": true, "(*sync.Once).Do": true,
+	"k8s.io/apimachinery/pkg/util/wait.ExponentialBackoff": true,
+	"(*golang.org/x/sync/singleflight.Group).Do":             true,
+	"(*github.com/dgraph-io/badger.Item).Value":              true,
+}
+
+// liftSites returns the instructions at which function f is entered, if they are all known and synchronous:
+// static call sites (not go / defer) of a function that is not invoked through an interface; for a function literal
+// the direct calls of the closure value, the dynamic calls of the parameter it is passed as (inside repo callees),
+// or the call of a known synchronous higher-order function it is passed to.
+func (p *Prog) liftSites(f *ssa.Function) ([]ssa.Instruction, bool) {
+	if f == nil {
+		return nil, false
+	}
+	if v, ok := p.liftCache[f]; ok {
+		return v.sites, v.ok
+	}
+	if p.liftCache == nil {
+		p.liftCache = map[*ssa.Function]liftEntry{}
+	}
+	p.liftCache[f] = liftEntry{nil, false} // recursion guard
+	sites, ok := p.liftSitesCompute(f)
+	p.liftCache[f] = liftEntry{sites, ok}
+	return sites, ok
+}
+
+type liftEntry struct {
+	sites []ssa.Instruction
+	ok    bool
+}
+
+func (p *Prog) liftSitesCompute(f *ssa.Function) ([]ssa.Instruction, bool) {
+	var out []ssa.Instruction
+	if par := f.Parent(); par != nil {
+		for _, b := range par.Blocks {
+			for _, ins := range b.Instrs {
+				mc, ok := ins.(*ssa.MakeClosure)
+				if !ok || mc.Fn != ssa.Value(f) {
+					continue
+				}
+				for _, ref := range *mc.Referrers() {
+					switch u := ref.(type) {
+					case *ssa.Call:
+						if u.Common().Value == ssa.Value(mc) {
+							out = append(out, u)
+							continue
+						}
+						// passed as an argument
+						sc := u.Common().StaticCallee()
+						if sc == nil {
+							return nil, false
+						}
+						if sc.Blocks != nil && sc.Pkg != nil && strings.HasPrefix(sc.Pkg.Pkg.Path(), modPath) {
+							// dynamic calls of the corresponding parameter inside the callee
+							found := false
+							for ai, a := range u.Common().Args {
+								if a != ssa.Value(mc) || ai >= len(sc.Params) {
+									continue
+								}
+								prm := sc.Params[ai]
+								for _, r2 := range *prm.Referrers() {
+									switch c2 := r2.(type) {
+									case *ssa.Call:
+										if c2.Common().Value == ssa.Value(prm) {
+											out = append(out, c2)
+											found = true
+										} else {
+											return nil, false
+										}
+									case *ssa.DebugRef:
+									default:
+										return nil, false
+									}
+								}
+							}
+							if !found {
+								return nil, false
+							}
+							continue
+						}
+						if syncHigherOrder[strings.TrimPrefix(sc.String(), "")] {
+							out = append(out, u)
+							continue
+						}
+						return nil, false
+					case *ssa.DebugRef:
+					default:
+						return nil, false // go, defer, stored: may run at another time
+					}
+				}
+			}
+		}
+		return out, len(out) > 0
+	}
+	if f.Synthetic != "" {
+		return nil, false
+	}
+	p.buildCallers()
+	for _, cs := range p.callers[f] {
+		if cs.Common().IsInvoke() {
+			return nil, false
+		}
+	}
+	p.buildCallersLite()
+	for _, cs := range p.staticCallers[f] {
+		switch cs.(type) {
+		case *ssa.Go, *ssa.Defer:
+			return nil, false
+		}
+		out = append(out, cs.(ssa.Instruction))
+	}
+	// address taken (method value / function value)? then other callers may exist
+	if p.addressTaken(f) {
+		return nil, false
+	}
+	return out, len(out) > 0
+}
+
+// addressTaken: f is used as a value (not only as a static callee) somewhere in the repo.
+func (p *Prog) addressTaken(f *ssa.Function) bool {
+	if p.addrTaken == nil {
+		p.addrTaken = map[*ssa.Function]bool{}
+		for _, g := range p.AllFuncs {
+			for _, b := range g.Blocks {
+				for _, ins := range b.Instrs {
+					var callee ssa.Value
+					if c, ok := ins.(ssa.CallInstruction); ok {
+						callee = c.Common().Value
+					}
+					for _, op := range ins.Operands(nil) {
+						if op == nil || *op == nil {
+							continue
+						}
+						if fn, ok := (*op).(*ssa.Function); ok && ssa.Value(fn) != callee {
+							p.addrTaken[fn] = true
+						}
+						if mc, ok := (*op).(*ssa.MakeClosure); ok {
+							_ = mc
+						}
+					}
+					if mc, ok := ins.(*ssa.MakeClosure); ok {
+						if fn, ok := mc.Fn.(*ssa.Function); ok && fn.Synthetic != "" {
+							// bound method wrapper: the wrapped method's address is taken
+							if w := unwrapSynthetic(fn); w != fn {
+								p.addrTaken[w] = true
+							}
+						}
+					}
+				}
+			}
+		}
+	}
+	return p.addrTaken[f]
+}
+
+// paramThrough: a parameter resolves to the value passed for it when every (liftable) call site passes the same
+// resolved value.
+func paramThrough(prm *ssa.Parameter, depth int) (ssa.Value, bool) {
+	if gp == nil || depth > 3 {
+		return nil, false
+	}
+	f := prm.Parent()
+	if f.Parent() != nil {
+		return nil, false // parameters of function literals are supplied by their (often external) invoker
+	}
+	sites, ok := gp.liftSites(f)
+	if !ok {
+		return nil, false
+	}
+	idx := paramIndex(prm)
+	var val ssa.Value
+	for i, cs := range sites {
+		c, isCall := cs.(ssa.CallInstruction)
+		if !isCall || idx >= len(c.Common().Args) {
+			return nil, false
+		}
+		a := c.Common().Args[idx]
+		if a == ssa.Value(prm) {
+			return nil, false
+		}
+		ra := resolveUpD(a, depth+1)
+		if i == 0 {
+			val = ra
+		} else if ra != val {
+			return nil, false
+		}
+	}
+	return val, val != nil
+}
+
+func resolveUpD(v ssa.Value, depth int) ssa.Value {
+	v = resolve(v)
+	if depth > 3 {
+		return v
+	}
+	if prm, ok := v.(*ssa.Parameter); ok {
+		if nv, ok := paramThrough(prm, depth); ok {
+			return nv
+		}
+	}
+	return v
+}
+
+// resolveUp is resolve() that additionally follows a parameter to the argument passed for it when every call site
+// of the function passes the same value (helper extraction): the result lives in the frame of the outermost caller.
+func resolveUp(v ssa.Value) ssa.Value {
+	for i := 0; i < 8; i++ {
+		v = resolve(v)
+		prm, ok := v.(*ssa.Parameter)
+		if !ok {
+			return v
+		}
+		nv, ok := paramThrough(prm, 0)
+		if !ok {
+			return v
+		}
+		v = nv
+	}
+	return v
+}
+
+// sameVal: two values denote the same run-time value, possibly seen from different frames of one call chain.
+func sameVal(a, b ssa.Value) bool {
+	if a == nil || b == nil {
+		return false
+	}
+	ra, rb := resolve(a), resolve(b)
+	if ra == rb {
+		return true
+	}
+	return resolveUp(ra) == resolveUp(rb)
 }
